@@ -371,6 +371,132 @@ def startpos_of(facts, seq):
     return r[1] if r[0] == "const" else "?"
 
 
+# ------------------------------------------------------------------------------------------ exact loop simulation
+def _assigned_names(stmts) -> list[str]:
+    import ast as _ast
+
+    out = []
+    for st in stmts:
+        for n in _ast.walk(st):
+            if isinstance(n, _ast.Name) and isinstance(n.ctx, _ast.Store) and n.id not in out:
+                out.append(n.id)
+    return out
+
+
+class FactorySim:
+    """_get_binding's parameter loop as a state transformer, applied to a concrete sequence of parameter kinds.
+
+    Loop-carried variables are parameters of the loop body, so a guard such as `max_pos is None` is decided from the
+    state the earlier iterations really left, not from the initial value."""
+
+    def __init__(self, prog: Program):
+        import ast as _ast
+
+        self.prog = prog
+        self.f = prog.function(f"{MOD}._get_binding")
+        body = self.f.node.body
+        idx = [i for i, st in enumerate(body) if isinstance(st, _ast.For)]
+        if len(idx) != 1:
+            raise AnalysisError("_get_binding: expected exactly one top-level parameter loop")
+        self.pre, self.loop, self.post = body[: idx[0]], body[idx[0]], body[idx[0] + 1 :]
+        tgt = _assigned_names([_ast.Expr(self.loop.target)]) or []
+        tnames = [n.id for n in _ast.walk(self.loop.target) if isinstance(n, _ast.Name)]
+        self.targets = tnames
+        self.vars = [v for v in _assigned_names(self.pre) + _assigned_names(self.loop.body) if v not in tnames]
+        self.vars = list(dict.fromkeys(self.vars))
+        pre_paths = P.block_paths(prog, self.f, self.pre, self.f.params, "pre")
+        if len(pre_paths) != 1:
+            raise AnalysisError("_get_binding: branching before the parameter loop")
+        self.init = {v: pre_paths[0].env.get(v) for v in self.vars}
+        self.body_paths = P.block_paths(prog, self.f, self.loop.body, self.vars + tnames + self.f.params, "loop-body")
+        self.post_paths = P.block_paths(prog, self.f, self.post, self.vars + self.f.params, "post")
+        # which target is the index / the name / the parameter object (from `for i, (name, param) in enumerate(params.items())`)
+        del tgt
+
+    def run(self, seq):
+        sigma = {v: (t if t is not None else ("const", None)) for v, t in self.init.items()}
+        binding_keys_idx, binding_keys_name = {}, {}
+        tnames = self.targets
+        if len(tnames) != 3:
+            return None
+        iname, nname, pname = tnames
+        for j, kind in enumerate(seq):
+            sigma[iname] = ("const", j)
+            sigma[nname] = ("ref", f"<name:{j}>")
+            sigma[pname] = ("ref", f"<param:{j}>")
+            chosen = None
+            for p in self.body_paths:
+                ok = True
+                for g, pol in p.guards():
+                    v = _under_kind(P.substitute(g, sigma), kind)
+                    if v[0] != "const":
+                        return None
+                    if bool(v[1]) != pol:
+                        ok = False
+                        break
+                if ok:
+                    if chosen is not None:
+                        return None
+                    chosen = p
+            if chosen is None:
+                return None
+            new = dict(sigma)
+            for e in chosen.events:
+                if e[0] == "assign" and e[1] in self.vars:
+                    new[e[1]] = _under_kind(P.substitute(e[2], sigma), kind)
+                elif e[0] == "setitem" and (e[4] == "binding" or e[1] == ("param", "binding")):
+                    k = _under_kind(P.substitute(e[2], sigma), kind)
+                    v = _under_kind(P.substitute(e[3], sigma), kind)
+                    if k[0] == "const" and isinstance(k[1], int):
+                        binding_keys_idx[k[1]] = v
+                    elif k[0] == "ref" and k[1].startswith("<name:"):
+                        binding_keys_name[int(k[1][6:-1])] = v
+                    else:
+                        return None
+            sigma = new
+        # after the loop
+        ret = None
+        for p in self.post_paths:
+            ok = True
+            for g, pol in p.guards():
+                v = T.fold_bool(P.substitute(g, sigma))
+                if v[0] != "const" or bool(v[1]) != pol:
+                    ok = v[0] == "const" and False
+                    break
+            if ok and p.exit[0] == "return":
+                ret = T.fold_bool(P.substitute(p.exit[1], sigma))
+        if ret is None or ret[0] != "call":
+            return None
+        kw = dict(ret[3])
+        truth = None
+        for c in T.calls_in(ret):
+            if T.refname(c[1]) == f"{MOD}._Truth":
+                truth = {k: (v[1] if v[0] == "const" else None) for k, v in c[3]}
+
+        def own(v, j):
+            return T.is_call_to(v, "typelib.unmarshals.api.unmarshaller") and v[2] == (("attr", ("ref", f"<param:{j}>"), "annotation"),)
+
+        def which(v):
+            if v is None or v == ("const", None):
+                return None
+            for j in range(len(seq)):
+                if own(v, j):
+                    return j
+            return "?"
+
+        sp = kw.get("startpos")
+        return {
+            "keys_idx": {j for j, v in binding_keys_idx.items()},
+            "keys_name": {j for j, v in binding_keys_name.items()},
+            "own": all(own(v, j) for j, v in list(binding_keys_idx.items()) + list(binding_keys_name.items())),
+            "startpos": sp[1] if sp is not None and sp[0] == "const" else "?",
+            "varpos": which(kw.get("varpos")),
+            "varkwd": which(kw.get("varkwd")),
+            "truth": truth,
+            "binding_is_local": kw.get("binding") is not None and kw["binding"][0] in ("dict", "param"),
+        }
+
+
 # ------------------------------------------------------------------------------------------ R10.3
 def matrix(prog: Program):
     mod = prog.module(MOD)
@@ -412,8 +538,12 @@ def simulate(summary, startpos, seq, npos, kwnames, facts=None):
     is ('param', j) | 'varpos' | 'varkwd' | 'raw' | 'key' | ('crash', why)."""
     pos, kw = summary
     names = [f"p{j}" for j in range(len(seq))]
-    keys_idx = {j for j, k in enumerate(seq) if facts is None or facts[k]["reg_index"]}
-    keys_name = {n for n, k in zip(names, seq) if facts is None or facts[k]["reg_name"]}
+    if isinstance(facts, dict) and "keys_idx" in facts:
+        keys_idx = set(facts["keys_idx"])
+        keys_name = {names[j] for j in facts["keys_name"]}
+    else:
+        keys_idx = {j for j, k in enumerate(seq) if facts is None or facts[k]["reg_index"]}
+        keys_name = {n for n, k in zip(names, seq) if facts is None or facts[k]["reg_name"]}
     has_va = "VA" in seq
     has_vk = "VK" in seq
     out_pos = []
@@ -519,6 +649,7 @@ def signatures_for(row):
 
 def check_rows(prog, rep, summaries, facts, rows):
     loc = prog.module(MOD).relpath
+    fsim = FactorySim(prog)
     allrows = list(itertools.product([False, True], repeat=5))
     sims = 0
     phantom_bad = []
@@ -534,10 +665,23 @@ def check_rows(prog, rep, summaries, facts, rows):
         summ = summaries[cls]
         bad = []
         for seq in signatures_for(row):
-            sp = startpos_of(facts, seq)
+            st = fsim.run(seq)
+            if st is None:
+                bad.append((seq, 0, [], "the parameter loop could not be simulated for this signature (guard or key outside the idiom set)"))
+                continue
+            want_truth = {FLAG_OF[k]: (k in seq) for k in KINDS}
+            if st["truth"] != want_truth:
+                bad.append((seq, 0, [], f"_get_binding computes presence flags {st['truth']} for kinds {seq}: another matrix row is selected"))
+                continue
+            va = seq.index("VA") if "VA" in seq else None
+            vk = seq.index("VK") if "VK" in seq else None
+            if st["varpos"] != va or st["varkwd"] != vk or not st["own"]:
+                bad.append((seq, 0, [], f"varpos/varkwd/binding do not hold the parameters' own unmarshallers (varpos<-param {st['varpos']}, varkwd<-param {st['varkwd']}, own={st['own']})"))
+                continue
+            sp = st["startpos"]
             for npos, kwn, tag in accepted_calls(seq):
                 sims += 1
-                got = simulate(summ, sp, seq, npos, kwn, facts)
+                got = simulate(summ, sp, seq, npos, kwn, st)
                 if got is None:
                     bad.append((seq, npos, kwn, "startpos undetermined"))
                     continue
